@@ -97,9 +97,14 @@ def d2(ctx, prog, build):
     ctx.check({'pooled_covariance', 'pooled_covariance_inv'} <= st_attrs, 'C14-D2', f'{bc.key}::covariances', 'the build _compute does not store both pooled covariance attributes',
               'build _compute stores pooled_covariance and its pseudo-inverse', bc.where())
     inv = [s for s in ast.walk(bc.node) if isinstance(s, ast.Assign) and self_attr(s.targets[0]) == 'pooled_covariance_inv' and isinstance(s.value, ast.Call)
-           and norm(s.value.func).split('.')[-1] in ('pinv', 'inv')]
-    ctx.check(bool(inv) and all(norm(s.value.args[0]) == 'self.pooled_covariance' for s in inv), 'C14-D2', f'{bc.key}::inverse of',
-              'pooled_covariance_inv is not the (pseudo-)inverse of self.pooled_covariance', 'pooled_covariance_inv = pinv(pooled_covariance)', bc.where())
+           and norm(s.value.func).split('.')[-1] in ('pinv', 'inv', 'solve', 'lstsq')]
+    plain = [s for s in inv if norm(s.value.func).split('.')[-1] != 'pinv']
+    if plain:
+        ctx.fail('C14-D2', f'{bc.key}::inverse of', f'`{norm(plain[0])[:70]}`: the matcher needs the pseudo-inverse of the pooled covariance; a plain inverse of a rank-deficient covariance '
+                 f'(constant or dependent samples, fewer traces than samples) is a huge meaningless matrix and does not raise', bc.where(plain[0]))
+    else:
+        ctx.check(bool(inv) and all(norm(s.value.args[0]) == 'self.pooled_covariance' for s in inv), 'C14-D2', f'{bc.key}::inverse of',
+                  'pooled_covariance_inv is not the pseudo-inverse of self.pooled_covariance', 'pooled_covariance_inv = pinv(pooled_covariance)', bc.where())
     # what the matcher reads
     m = prog.need_class(TPL, '_BaseTemplateAttackDistinguisherMixin')
     reads = set()
@@ -200,6 +205,13 @@ def run(ctx, prog):
         u.acc = universe.accumulators(prog, u.cls, u.init)
         c01.d5(ctx, prog, u.cls, u.compute, u.acc, u.count, u.guard or '', rule='C14-D6')
         npure += 1
+    ign = universe.ignored_init_params(prog, ('scared.analysis.template', 'scared.distinguishers.template'))
+    for f_, p_ in ign:
+        ctx.fail('C14-D7', f'{f_.key}::{p_}', f'the constructor accepts `{p_}` and never uses it: the value the caller (or the owning attack) passes is silently replaced by the default '
+                 f'(e.g. a template built in float32 for a float64 attack)', f_.where())
+    if not ign:
+        ctx.ok('C14-D7', f'{ATPL}::constructor arguments', 'every constructor argument of the template classes is used / forwarded')
+    ctx.rule('C14-D7', 'no constructor of the template classes accepts an argument it never reads (configuration such as precision must reach the build analysis)')
     ctx.rule('C14-D6', 'the compute closure of every template class (build and matching) has no persistent effect on accumulated state (ownership analysis): profiles can be rebuilt / scores re-read')
     ctx.floor('template classes checked for compute purity', npure, 3)
     ctx.floor('template row selections', n3, 2)
